@@ -41,6 +41,53 @@ check("C20",
       "deterministic simulation of the disk (torn/edited/flipped files in SimFS) with exhaustive crash-point sweep per document and a deterministic step clock for termination",
       "DESIGN.md section 4, C20", category="fault_enumeration")
 
+
+check("C03",
+      "Seeded search over operation histories: 1-40 public mutator calls (all flag settings, seeded targets; ~8% deliberately inadmissible arguments as the fault dimension) on seeded start trees; after EVERY step the raw arborescence, iterator agreement, the leaf-taxon multiset rule and - when an update was requested on a current encoding - bipartition freshness against a freshly encoded structural clone are checked. Randomised mutators draw from a recording SimRNG, object addresses are simulated, every call runs under the step clock so that a cycle shows up as a budget overrun.",
+      "Trusted: the raw walk through _seed_node/_child_nodes/_parent_node/_edge; admissibility table taken from the docstrings (what they leave open is treated as inadmissible, for which only 'raises or completes and the tree is still well formed' is demanded); the structural clone is encoded by the library itself (differential for bitmask values).",
+      "deterministic simulation: seeded operation/fault histories with a step invariant (reference = raw-structure model), simulated RNG/addresses/step clock",
+      "DESIGN.md section 4, C03")
+check("C04",
+      "Seeded search over histories of structural edits interleaved with distance queries on three long-lived trees sharing a namespace and leaf set; every query is compared with split sets and per-split lengths recomputed from the raw walk of the CURRENT structures (so stale caches are caught without a separate rule), plus symmetry of value and of definedness, zero distance to a re-drawing, triangle inequality, refusal of foreign namespaces.",
+      "Trusted: own split extraction from the raw walk (unifurcation chains and unrooted basal bifurcations merged, absent length = 0); numeric equality of weighted distances only when all non-root edges have lengths.",
+      "deterministic simulation: seeded edit/query histories against an executable reference model (split sets from the raw structure)",
+      "DESIGN.md section 4, C04")
+check("C10",
+      "Seeded search over histories (5-60 steps) of add/new/require/remove/discard/del/sort/reverse/clear/relabel/mutability/copy operations on a namespace and its copies (deep and shallow, sharing Taxon objects), against a reference model of (member order, bit per member, monotone counter, mutability, case rule); after every step the full state of every live namespace and a batch of bitmask/rendering/lookup queries are compared. Inadmissible operations must raise and change nothing.",
+      "Trusted: the reference model (a few dozen lines); labels are alphanumeric so textual renderings parse unambiguously.",
+      "deterministic simulation: seeded operation histories against a small executable reference model",
+      "DESIGN.md section 4, C10")
+check("C11",
+      "Seeded search over histories of TreeList / TreeArray / CharacterMatrix / DataSet operations fed with trees and matrices built under foreign namespaces (overlapping, disjoint, case-variant labels, both import strategies, reads from string/stream/SimFS path); after every step the closure invariant over every live container and every removed tree, and for migrating/reading steps the equal-label/different-label rule.",
+      "Trusted: 'equal labels' judged under the target namespace's case rule; documented refusals (label collisions under a case-insensitive target) are accepted.",
+      "deterministic simulation: seeded operation histories with a closure step invariant, simulated file system",
+      "DESIGN.md section 4, C11")
+check("C12",
+      "Seeded search over (object, copy route, mutation history): equality of identity-free canonical dumps at copy time, disjointness of reachable mutable objects outside the documented shared region, and non-interference - before every one of 3-25 mutations applied to source or copy the other side is dumped, afterwards the dump must be unchanged; attribute-bound annotations on the copy must follow the copy.",
+      "Trusted: the generic __dict__ crawler (objects identified by their __dict__, caches skipped by name - list in the evidence); the depth table taken from the docstrings (printed in the evidence).",
+      "deterministic simulation: seeded mutation histories on source/copy with a non-interference invariant over canonical object-graph dumps",
+      "DESIGN.md section 4, C12")
+check("C13",
+      "Seeded search over sessions: 2-8 read calls through seeded routes (tree list, single tree by offsets, incremental read into empty / non-empty list, file iterator, tree array, data set; string / stream with short reads / SimFS path) into ONE shared namespace, with lazily consumed file iterators advanced one tree at a time between the other calls (or abandoned midway); every delivery is compared with TreeList.get run alone; the namespace must hold no duplicate labels and stay usable afterwards.",
+      "Trusted: TreeList.get(data=...) as the reference route (differential oracle); documents are generated valid; live iterators never see their namespace gain taxa (documented exclusion).",
+      "deterministic simulation: seeded sessions with cooperatively stepped iterators and simulated streams/file system; differential oracle between read routes",
+      "DESIGN.md section 4, C13")
+check("C16",
+      "Seeded search over histories of scoring calls (all flag combinations, several matrices, rotations, re-rootings) on ONE long-lived tree object; every score and per-character list is compared with a Sankoff dynamic programme over our own state tables on the raw tree, so any dependence on earlier calls shows up as a wrong value.",
+      "Trusted: the Sankoff reference (unit costs, own IUPAC/standard tables).",
+      "deterministic simulation: seeded call histories on one object against an executable reference (Sankoff DP)",
+      "DESIGN.md section 4, C16")
+check("C18",
+      "Seeded search with the random source simulated: every simulator is called with a recording SimRNG (plain or adversarial: scripted extreme random() values), trip-wires on the process-global generators, and simulated object addresses; specification checks per statement (tip counts, distinct taxa, bifurcation, ultrametricity, coalescence not before divergence) and reproducibility: generator state restored, arguments rebuilt, another address layout - outputs and draw counts must be identical.",
+      "Trusted: own checks on the raw tree; calls exceeding the step budget are abandoned, not judged.",
+      "deterministic simulation: simulated RNG (recording/adversarial), global-RNG trip-wires and simulated addresses; replay from equal generator state",
+      "DESIGN.md section 4, C18")
+check("C19",
+      "Seeded search over histories (3-30 steps) of concatenate / extend / add / replace / update / remove / discard / keep / fill / pack / subset / export operations on matrices of seven data types with partially overlapping taxon sets, repeated labels and repeated objects, foreign-namespace and self arguments as faults; reference model = label -> list of symbols per matrix, compared row by row after every step; every call under the step clock, HANG reported only after a fresh replay of the history at 20x the budget.",
+      "Trusted: the reference model; termination = budget of step-clock ticks (loop iterations and calls inside dendropy).",
+      "deterministic simulation: seeded operation histories against a reference model, step clock for termination, simulated file system",
+      "DESIGN.md section 4, C19")
+
 def main():
     claimed = sorted(CHECKS)
     m = {
